@@ -354,6 +354,8 @@ func init() {
 		streams: []*stream{
 			{name: "exhaustive", n: func(string) int { return c04VectorCount() }, unit: 1400, run: c04Exhaustive, exhaustive: true,
 				note: "all value vectors in {0..3}^n, n<=6"},
+			{name: "sampled-service", n: tierN(2000, 30000), unit: 1000, run: c04Sampled, service: true,
+				note: "the same generator and oracle as the stream named in front of the dash, but every request goes through decideHandler of main.go in-process (gin binding, the handler's own request object) after a history of 1..3 unrelated requests (accepted and rejected)"},
 			{name: "sampled", n: tierN(6000, 150000), unit: 1500, run: c04Sampled, floors: map[string]int64{"permutations": 10000, "nontrivial": 4000}},
 		},
 	})
